@@ -241,9 +241,10 @@ def handleAssert (s : Sess) (i : Nat) (op : Json) : Json :=
   | "assert_same" =>
     let key := getStrD op "key" "C06"
     let lastOnly := getBoolD op "last_only" false
+    let pktsOnly := getBoolD op "pkts_only" false      -- compare what was decoded, not the caches (they may legitimately hold extra ids)
     let f (sel : Call → ParseAns) :=
       (if lastOnly then (ca.getLast?.map fun c => (sel c).pkts) == (cb.getLast?.map fun c => (sel c).pkts)
-       else ca.map (fun c => (sel c).pkts) == cb.map (fun c => (sel c).pkts)) && lastState ca sel == lastState cb sel
+       else ca.map (fun c => (sel c).pkts) == cb.map (fun c => (sel c).pkts)) && (pktsOnly || lastState ca sel == lastState cb sel)
     -- two parser instances fed the same history serialise to identical text
     let sameText := key != "C16" || ca.map (·.jsons) == cb.map (·.jsons)
     mk key (f (·.impl) && sameText) (f (·.model))
